@@ -119,6 +119,8 @@ type IdP struct {
 	Path   string // path prefix for endpoints
 	// AuthQuery is a query the authorization endpoint itself carries (C13).
 	AuthQuery string
+	// ServerCA selects which test CA issued the certificate the https server presents (C20).
+	ServerCA int
 
 	Keys      []*SignKey // all keys this IdP may sign with
 	Cur       int        // index of active signing key
